@@ -69,6 +69,17 @@ func genText(t *rapid.T, l string) string {
 		return longText(t, l)
 	}
 	rs := rapid.SliceOfN(runeGen, 0, 40).Draw(t, l)
+	// code points that text layers like to treat specially, at the start / end of the string
+	// (byte order marks in either byte order, replacement character, line separators, bidi
+	// controls, the last BMP code points)
+	if rapid.IntRange(0, 5).Draw(t, l+"_edge") == 0 {
+		sp := rapid.SampledFrom([]rune{0xfeff, 0xfffe, 0xfffd, 0xffff, 0x2028, 0x2029, 0x202e, 0x200b, 0x85, 0x7f, 0x1b, '\r', '\n', '\t'}).Draw(t, l+"_sp")
+		if rapid.Bool().Draw(t, l+"_spfirst") {
+			rs = append([]rune{sp}, rs...)
+		} else {
+			rs = append(rs, sp)
+		}
+	}
 	s := string(rs)
 	// the two text readers strip leading/trailing NULs by contract (terminator removal);
 	// interior NULs are kept.
